@@ -80,7 +80,9 @@ def run_tlc(spec, cfg, workers=1, timeout=600, env=None, simulate=None, depth=No
                 fh.write(cfg_text)
         else:
             shutil.copy(os.path.join(SPECS, cfg), cfgpath)
-        cmd = ["java", "-XX:+UseParallelGC", "-Xmx" + heap, "-Xss256m"]
+        jtmp = os.path.join(work, "jtmp")          # the JVM's own temporary directory (TLC unpacks its standard modules there):
+        os.makedirs(jtmp, exist_ok=True)           # inside the scratch directory, so that it goes with it
+        cmd = ["java", "-XX:+UseParallelGC", "-Xmx" + heap, "-Xss256m", "-Djava.io.tmpdir=" + jtmp]
         if dfs:
             cmd.append("-Dtlc2.tool.queue.IStateQueue=StateDeque")
         cmd += ["-cp", JAR, "tlc2.TLC", "-workers", str(workers), "-metadir",
